@@ -224,6 +224,8 @@ class SmilesToken(BigSMILESbase):
                 element_string += element.generate_string(False)
             if isinstance(element, BondDescriptor):
                 # Bond descriptors indicate a missing atom, so no connection between existing atoms
+                # A bond symbol written in front of the descriptor belongs to the missing atom.
+                string = string.rstrip("-=#$:")
                 element_string += "."
             if len(element_string) <= 0:
                 raise RuntimeError("expected as non-empty string")
@@ -235,6 +237,8 @@ class SmilesToken(BigSMILESbase):
         string = string.replace(".)", ")")
 
         string = string.strip(".")
+        # A bond symbol following a leading bond descriptor belongs to the missing atom, too.
+        string = string.lstrip("-=#$:")
         return string
 
     @property
